@@ -325,6 +325,137 @@ impl<'ast, 'a> Visit<'ast> for FnFinder<'a> {
     }
 }
 
+const READ_ONLY_ENTRIES: &[&str] = &[
+    "replay_events",
+    "compaction_cut_points_v1",
+    "compaction_status_v1",
+    "provider_cursor_status_v1",
+    "context_selection_status_v1",
+    "list",
+    "get",
+    "subscribe",
+    "load_context_compile_input_recent_messages_v1",
+    "latest_compaction_checkpoint_for_compile_v1",
+    "hierarchical_compaction_checkpoints_for_compile_v1",
+];
+
+struct CallGraph {
+    cur_type: Option<String>,
+    out: Vec<(String, Vec<String>, bool)>,
+}
+
+struct CalleeCollect {
+    callees: Vec<String>,
+    appends: bool,
+}
+
+impl<'ast> Visit<'ast> for CalleeCollect {
+    fn visit_expr_method_call(&mut self, m: &'ast syn::ExprMethodCall) {
+        let name = m.method.to_string();
+        let recv = m.receiver.to_token_stream().to_string().replace(' ', "");
+        if recv == "self" {
+            if !self.callees.contains(&name) {
+                self.callees.push(name.clone());
+            }
+        }
+        if name == "append" && recv.ends_with("event_log") {
+            self.appends = true;
+        }
+        syn::visit::visit_expr_method_call(self, m);
+    }
+    fn visit_expr_call(&mut self, c: &'ast syn::ExprCall) {
+        if let syn::Expr::Path(p) = &*c.func {
+            let segs: Vec<String> = p.path.segments.iter().map(|s| s.ident.to_string()).collect();
+            if segs.len() == 2 && segs[0] == "Self" && !self.callees.contains(&segs[1]) {
+                self.callees.push(segs[1].clone());
+            }
+        }
+        syn::visit::visit_expr_call(self, c);
+    }
+}
+
+impl<'ast> Visit<'ast> for CallGraph {
+    fn visit_item_impl(&mut self, i: &'ast syn::ItemImpl) {
+        let ty = i.self_ty.to_token_stream().to_string().replace(' ', "");
+        let prev = self.cur_type.replace(ty);
+        syn::visit::visit_item_impl(self, i);
+        self.cur_type = prev;
+    }
+    fn visit_impl_item_fn(&mut self, f: &'ast syn::ImplItemFn) {
+        if self.cur_type.as_deref() != Some("ContinuityStore") {
+            return;
+        }
+        let mut c = CalleeCollect { callees: Vec::new(), appends: false };
+        c.visit_block(&f.block);
+        self.out.push((f.sig.ident.to_string(), c.callees, c.appends));
+    }
+    fn visit_item_mod(&mut self, m: &'ast syn::ItemMod) {
+        let name = m.ident.to_string();
+        if name == "tests" || name.starts_with("verif") {
+            return;
+        }
+        syn::visit::visit_item_mod(self, m);
+    }
+}
+
+#[derive(Default)]
+struct LogFx {
+    in_event_log: bool,
+    /// (create, append, truncate, write, create_new)
+    opens: Vec<(bool, bool, bool, bool, bool)>,
+    destructive: usize,
+}
+
+fn chain_methods(e: &syn::Expr, out: &mut Vec<(String, String)>) -> bool {
+    // returns true if the chain starts at OpenOptions::new()
+    match e {
+        syn::Expr::MethodCall(m) => {
+            let started = chain_methods(&m.receiver, out);
+            let arg = m.args.first().map(|a| a.to_token_stream().to_string()).unwrap_or_default();
+            out.push((m.method.to_string(), arg));
+            started
+        }
+        syn::Expr::Call(c) => c.func.to_token_stream().to_string().replace(' ', "").ends_with("OpenOptions::new"),
+        syn::Expr::Try(t) => chain_methods(&t.expr, out),
+        _ => false,
+    }
+}
+
+impl<'ast> Visit<'ast> for LogFx {
+    fn visit_item_impl(&mut self, i: &'ast syn::ItemImpl) {
+        let ty = i.self_ty.to_token_stream().to_string().replace(' ', "");
+        let prev = self.in_event_log;
+        self.in_event_log = ty == "EventLog";
+        syn::visit::visit_item_impl(self, i);
+        self.in_event_log = prev;
+    }
+    fn visit_expr_method_call(&mut self, m: &'ast syn::ExprMethodCall) {
+        if self.in_event_log {
+            let name = m.method.to_string();
+            if name == "open" {
+                let mut ms = Vec::new();
+                if chain_methods(&m.receiver, &mut ms) {
+                    let flag = |n: &str| ms.iter().any(|(k, v)| k == n && v == "true");
+                    self.opens.push((flag("create"), flag("append"), flag("truncate"), flag("write"), flag("create_new")));
+                }
+            }
+            if matches!(name.as_str(), "set_len" | "seek" | "truncate" | "rewind") {
+                self.destructive += 1;
+            }
+        }
+        syn::visit::visit_expr_method_call(self, m);
+    }
+    fn visit_expr_call(&mut self, c: &'ast syn::ExprCall) {
+        if self.in_event_log {
+            let f = c.func.to_token_stream().to_string().replace(' ', "");
+            if f.ends_with("File::create") || f.ends_with("fs::write") || f.ends_with("remove_file") || f.ends_with("fs::rename") || f.ends_with("File::create_new") {
+                self.destructive += 1;
+            }
+        }
+        syn::visit::visit_expr_call(self, c);
+    }
+}
+
 fn eval_const(e: &syn::Expr) -> Option<u128> {
     match e {
         syn::Expr::Lit(l) => match &l.lit {
@@ -399,6 +530,7 @@ fn main() {
         Ok(())
     };
     let mut errors: Vec<String> = Vec::new();
+    let mut cache_mentions_log: Vec<String> = Vec::new();
 
     // ---- effect orders
     let mut orders: Vec<(u32, String, Vec<Eff>)> = Vec::new();
@@ -462,6 +594,56 @@ fn main() {
         }
     };
 
+    // ---- call graph of impl ContinuityStore (which entry points can reach a log append)
+    let mut graph: Vec<(String, Vec<String>, bool)> = Vec::new();
+    match load("crates/ripd/src/continuities.rs", &mut parsed) {
+        Err(e) => errors.push(e),
+        Ok(()) => {
+            let mut cg = CallGraph { cur_type: None, out: Vec::new() };
+            cg.visit_file(&parsed["crates/ripd/src/continuities.rs"]);
+            graph = cg.out;
+            for name in READ_ONLY_ENTRIES {
+                if !graph.iter().any(|(n, _, _)| n == name) {
+                    errors.push(format!("continuities.rs: read-only entry point {name} not found"));
+                }
+            }
+            if !graph.iter().any(|(_, _, a)| *a) {
+                errors.push("continuities.rs: no function appends to the event log (shape not recognised)".into());
+            }
+        }
+    }
+    // the cache layer must not know the truth log at all
+    for f in ["crates/ripd/src/continuity_stream_cache.rs", "crates/ripd/src/continuity_seek_index.rs", "crates/ripd/src/message_ordinal_index.rs", "crates/ripd/src/compaction_checkpoint_index.rs"] {
+        match std::fs::read_to_string(repo.join(f)) {
+            Err(e) => errors.push(format!("{f}: {e}")),
+            Ok(text) => {
+                let code: String = text
+                    .split("#[cfg(test)]")
+                    .next()
+                    .unwrap_or("")
+                    .lines()
+                    .filter(|l| !l.trim_start().starts_with("//"))
+                    .collect::<Vec<_>>()
+                    .join("\n");
+                if code.contains("EventLog") || code.contains("events.jsonl") || code.contains("event_log") {
+                    cache_mentions_log.push(f.to_string());
+                }
+            }
+        }
+    }
+
+    // ---- how the truth file is opened and written (impl EventLog)
+    let mut log_fx = LogFx::default();
+    match load("crates/rip-log/src/lib.rs", &mut parsed) {
+        Err(e) => errors.push(e),
+        Ok(()) => {
+            log_fx.visit_file(&parsed["crates/rip-log/src/lib.rs"]);
+            if log_fx.opens.is_empty() {
+                errors.push("rip-log: no OpenOptions chain found in impl EventLog (shape not recognised)".into());
+            }
+        }
+    }
+
     if !errors.is_empty() {
         for e in &errors {
             eprintln!("ripx: {e}");
@@ -498,6 +680,38 @@ fn main() {
     if let Some(s) = &schema {
         write_if_changed(&out.join("EventSchema.lean"), &schema::to_lean(s));
     }
+
+    // call graph
+    let mut lean = String::new();
+    lean.push_str("/- GENERATED by ripx from crates/ripd/src/continuities.rs. Do not edit. -/\nnamespace Rip.Gen.CallGraph\n\n");
+    lean.push_str("/-- (function, direct callees inside impl ContinuityStore, appends to the event log directly) -/\n");
+    lean.push_str("def fns : List (Nat × List Nat × Bool) := [\n");
+    let idx = |n: &str| graph.iter().position(|(x, _, _)| x == n);
+    for (k, (name, callees, appends)) in graph.iter().enumerate() {
+        let cs: Vec<String> = callees.iter().filter_map(|c| idx(c)).map(|i| i.to_string()).collect();
+        lean.push_str(&format!("  ({k}, [{}], {}){} -- {name}\n", cs.join(", "), appends, if k + 1 == graph.len() { " " } else { "," }));
+    }
+    lean.push_str("]\n\n");
+    lean.push_str(&format!(
+        "/-- the read-only capabilities: {} -/\ndef readOnlyEntries : List Nat := [{}]\n\n",
+        READ_ONLY_ENTRIES.join(", "),
+        READ_ONLY_ENTRIES.iter().filter_map(|n| idx(n)).map(|i| i.to_string()).collect::<Vec<_>>().join(", ")
+    ));
+    lean.push_str(&format!("/-- cache-layer files that mention the truth log (must be none) -/\ndef cacheFilesMentioningLog : Nat := {}\n\n", cache_mentions_log.len()));
+    lean.push_str("end Rip.Gen.CallGraph\n");
+    write_if_changed(&out.join("CallGraph.lean"), &lean);
+
+    // log effects
+    let mut lean = String::new();
+    lean.push_str("/- GENERATED by ripx from crates/rip-log/src/lib.rs (impl EventLog). Do not edit. -/\nnamespace Rip.Gen.LogEffects\n\n");
+    lean.push_str("structure Open where\n  create : Bool\n  append : Bool\n  truncate : Bool\n  write : Bool\n  createNew : Bool\n  deriving Repr, DecidableEq\n\n");
+    lean.push_str(&format!(
+        "def opens : List Open := [{}]\n\n",
+        log_fx.opens.iter().map(|o| format!("{{ create := {}, append := {}, truncate := {}, write := {}, createNew := {} }}", o.0, o.1, o.2, o.3, o.4)).collect::<Vec<_>>().join(", ")
+    ));
+    lean.push_str(&format!("/-- File::create / set_len / seek / fs::write / remove_file / rename / truncate inside impl EventLog -/\ndef destructiveCalls : Nat := {}\n\n", log_fx.destructive));
+    lean.push_str("end Rip.Gen.LogEffects\n");
+    write_if_changed(&out.join("LogEffects.lean"), &lean);
 
     if let Some(p) = json_out {
         let v: Value = json!({
